@@ -79,7 +79,7 @@ Proof. exact unknown_never_value. Qed.
 (* outside good_name the statement is false of the model and of the code (known finding): x1y, _1 *)
 Theorem C09_name_not_one_token_refuted :
   let h := {| h_vars := [([120;49;121], VInt 5); ([95;49], VInt 6)]; h_funs := []; h_cells := []; h_ranges := []; h_registry := [];
-              h_varset := []; h_funset := [] |} in
+              h_varset := []; h_funset := []; h_oracle := fun _ _ => None |} in
   lex [120;49;121] = LexOk [Tok T_RELATIVE_CELL [120;49]; Tok T_VARIABLE [121]] /\
   fst (parse_formula h [120;49;121]) = PError EERROR /\
   lex [95;49] = LexOk [Tok T_VARIABLE [95]; Tok T_NUMBER [49]] /\ fst (parse_formula h [95;49]) = PError EERROR.
@@ -88,7 +88,7 @@ Proof. exact name_not_one_token_refuted. Qed.
 (* non-vacuity: a concrete host and formula  F(x,G(2))+1  with G unknown *)
 Example C09_example :
   let h := {| h_vars := [([120], VInt 5)]; h_funs := [([70], BRecord)]; h_cells := []; h_ranges := []; h_registry := registry_names;
-              h_varset := []; h_funset := [] |} in
+              h_varset := []; h_funset := []; h_oracle := fun _ _ => None |} in
   fst (parse_formula h [70;40;120;44;71;40;50;41;41;43;49]) = PError ENAME /\
   fst (parse_formula h [70;40;120;44;50;41]) = PResult (VList [VInt 5; VInt 2]) /\ good_name [120] /\ good_name [114;97;116;101;95;50].
 Proof. split; [vm_compute; reflexivity|]. split; [vm_compute; reflexivity|]. split; (split; [repeat constructor|split; [reflexivity|]]); [right; repeat constructor|left; split; [reflexivity|discriminate]]. Qed.
